@@ -141,14 +141,22 @@ Proof.
   apply (fitsN_mono 8); [vm_compute; discriminate|exact Hd].
 Qed.
 
+(* two step functions that agree on 16-bit states and octets, one of which keeps the state in 16 bits, give the same
+   fold; stated for abstract functions so that the kernel never looks into the translated step function *)
+Lemma fold_agree (f g : N -> N -> N) :
+  (forall c d, c < 2 ^ 16 -> d < 2 ^ 8 -> f c d = g c d) ->
+  (forall c d, c < 2 ^ 16 -> d < 2 ^ 8 -> g c d < 2 ^ 16) ->
+  forall l c, c < 2 ^ 16 -> Forall (fun b => b < 2 ^ 8) l -> fold_left f l c = fold_left g l c.
+Proof.
+  intros Hfg Hg. induction l as [|d l IH]; intros c Hc Hl; [reflexivity|].
+  inversion Hl as [|? ? Hd Hl']; subst. cbn [fold_left].
+  rewrite (Hfg c d Hc Hd). apply IH; [apply Hg; assumption|exact Hl'].
+Qed.
+
 Theorem bytes_spec l : forall c, c < 2 ^ 16 -> Forall (fun b => b < 2 ^ 8) l ->
   crc_bytes c l = spec_crc c l.
 Proof.
-  unfold crc_bytes, spec_crc.
-  induction l as [|d l IH]; intros c Hc Hl; [reflexivity|].
-  inversion Hl as [|? ? Hd Hl']; subst. cbn [fold_left].
-  rewrite octet_spec by assumption.
-  apply IH; [apply spec_octet_fits; assumption|exact Hl'].
+  intros c Hc Hl. exact (fold_agree crc16_octet spec_octet octet_spec (fun c d Hc Hd => spec_octet_fits c d Hc Hd) l c Hc Hl).
 Qed.
 
 Theorem bytes_app c a b : crc_bytes c (a ++ b) = crc_bytes (crc_bytes c a) b.
